@@ -72,6 +72,9 @@ def release(engine, st, fr, lockv, owner, lf, node):
     st.trace.append(Event("release", recv=lid, meth=lf, site=engine.site(fr, node), held=list(st.held), depth=fr.depth))
     if still:
         return
+    rh = getattr(engine.cfg, "release_hooks", {}).get((ocls, lf)) if ocls else None
+    if rh is not None:
+        rh(engine, st, owner)
     inv = engine.cfg.region_inv.get((ocls, lf)) if ocls else None
     if inv is not None:
         for (nm, f) in inv(engine, st, owner):
@@ -448,8 +451,11 @@ def _for_symbolic(engine, st, fr, s, it):
     src = _iter_source(engine, st, it)
     assigned = _assigned_names([s.target] + s.body)
     n, oid = src["n"], src["oid"]
-    ctx = {"entry": st.copy(), "kind": "for", "src": src, "n": n, "i": z3.IntVal(0)}
+    ctx = {"entry": st.copy(), "kind": "for", "src": src, "n": n, "i": z3.IntVal(0), "iter": it}
     _check_inv(engine, st, fr, spec, ctx, "init", ordinal)
+    if spec.at_entry is not None:
+        for (nm, f) in spec.at_entry(engine, st, fr, ctx):
+            engine.oblige(st, fr, "loop %s#%d entry: %s" % (fr.func.qualname.split(".")[-1], ordinal, nm), "LI", f)
     entry = st
 
     # (a) arbitrary iteration i
@@ -469,6 +475,7 @@ def _for_symbolic(engine, st, fr, s, it):
     if engine.feasible(st_b):
         st_b.decisions.append(("for#%d body" % ordinal, True))
         x = src["elem"](st_b, i)
+        t_head = len(st_b.trace)
         for st1, r in engine.assign(s.target, x, st_b, fr):
             if _is_raise(r):
                 yield st1, ("raise", r.exc)
@@ -479,11 +486,16 @@ def _for_symbolic(engine, st, fr, s, it):
                         same = z3.And(st2.get("$len", oid) == n, st2.get("$at", oid) == src["at"])
                         engine.oblige(st2, fr, "sequence not mutated while iterating (%s#%d)" % (fr.func.qualname.split(".")[-1], ordinal), "LI", same)
                     _check_inv(engine, st2, fr, spec, dict(ctx, i=i + 1), "preserved", ordinal)
+                    if spec.body_post is not None:
+                        for (nm, f) in spec.body_post(engine, st2, fr, dict(ctx, i=i, x=x), st2.trace[t_head:]):
+                            engine.oblige(st2, fr, "loop %s#%d body: %s" % (fr.func.qualname.split(".")[-1], ordinal, nm), "LI", f)
                     engine.n_paths += 1
                     _end_of_iteration(engine, st2, fr)
                 elif ctrl[0] == "break":
                     yield st2, None
                 else:
+                    if spec.body_post is not None and ctrl[0] == "raise":
+                        engine.oblige(st2, fr, "loop %s#%d body: no exception leaves the loop" % (fr.func.qualname.split(".")[-1], ordinal), "LI", z3.BoolVal(False))
                     yield st2, ctrl
 
     # (b) exit after all n iterations
